@@ -431,6 +431,53 @@ def catalogue(big=False):
                                 call("R", binds={"xs": self_("xs")})],
                                {"n": ref("R", "n")})], "TOP", {"xs": [7, 8, 9]}))
 
+    # 13d. ... and that has no chunks either (for one fork of two)
+    P.append(program("split_nothing_zero", [],
+                     [stage("S", "int[] xs", "", {}, split=True, chunks={"k": "len", "src": "xs"}, couts="", crules={}),
+                      stage("R", "int[] xs", "int n", {"n": length("xs")})],
+                     [pipeline("TOP", "int[][] xss, int[] none", "int n",
+                               [call("S", binds={"xs": split(self_("xss"))}, mode="array"),
+                                call("S0", "S", binds={"xs": self_("none")}),
+                                call("R", binds={"xs": self_("none")})],
+                               {"n": ref("R", "n")})], "TOP", {"xss": [[], [7, 8]], "none": []}))
+
+    # 13e. typed-map keys that need escaping in JSON (a backslash followed by a letter, a quote, a
+    #      tab) reaching consumers through a mapped call, a projection and the top-level outputs
+    P.append(program("map_keys_escapes", [struct("KV", "int v, string s")],
+                     [S_const("G", "map<int> m, map<KV> kv", {"m": {"back\\tslash": 1, "quo\"te": 2, "tab\there": 3},
+                                                               "kv": {"a\\nb": {"v": 1, "s": "x"}, "q\"": {"v": 2, "s": "y"}}}),
+                      S_echo("A"), S_echo("NAMES", "map<int>", "m", "o"), S_echo("VS", "map<int>", "m", "o")],
+                     [pipeline("TOP", "", "map<int> o, map<int> p, map<int> q",
+                               [call("G"),
+                                call("A", binds={"x": split(ref("G", "m"))}, mode="map"),
+                                call("NAMES", binds={"m": ref("A", "y")}),
+                                call("VS", binds={"m": ref("G", "kv", "v")})],
+                               {"o": ref("NAMES", "o"), "p": ref("A", "y"), "q": ref("VS", "o")})], "TOP", {}))
+
+    # 13f. a pipeline mapped over a run-time array of four; inside, a call mapped over a literal
+    #      array whose merged result a sibling stage takes (only that stage's result is returned)
+    P.append(program("map_dyn_inner_sum", [],
+                     [S_const("G", "int[] ys", {"ys": [1, 2, 3, 4]}), stage("CELL", "int a, int b", "string r", {"r": INST}),
+                      S_echo("SUM", "string[]", "what", "all")],
+                     [pipeline("INNER", "int x, int[] row", "string[] all",
+                               [call("CELL", binds={"a": self_("x"), "b": split(self_("row"))}, mode="array"),
+                                call("SUM", binds={"what": ref("CELL", "r")})],
+                               {"all": ref("SUM", "all")}),
+                      pipeline("TOP", "", "string[][] o",
+                               [call("G"),
+                                call("INNER", binds={"x": split(ref("G", "ys")), "row": lit([7, 8, 9])}, mode="array")],
+                               {"o": ref("INNER", "all")})], "TOP", {}))
+
+    # 13g. a preflight stage inside a mapped sub-pipeline that takes the mapped element: one
+    #      preflight job per fork, each fork's calls wait for (at least) their own
+    P.append(program("preflight_forked", [], [stage("CHK", "int x", "", {}), S_echo("W")],
+                     [pipeline("SUB", "int v", "int y",
+                               [call("CHK", binds={"x": self_("v")}, pre=True),
+                                call("W", binds={"x": self_("v")})], {"y": ref("W", "y")}),
+                      pipeline("TOP", "int[] vs", "int[] o",
+                               [call("SUB", binds={"v": split(self_("vs"))}, mode="array")],
+                               {"o": ref("SUB", "y")})], "TOP", {"vs": [5, 6, 7]}))
+
     # 14. two mapped levels: the inner map call splits the output of a stage that is
     #     itself forked by the outer map call
     P.append(program("map_nested", [],
